@@ -28,6 +28,7 @@ import (
 	"gitlab.com/aquachain/aquachain/common"
 	"gitlab.com/aquachain/aquachain/common/hexutil"
 	"gitlab.com/aquachain/aquachain/common/log"
+	"gitlab.com/aquachain/aquachain/common/verifhook"
 	"gitlab.com/aquachain/aquachain/core/types"
 	"gitlab.com/aquachain/aquachain/crypto"
 	"gitlab.com/aquachain/aquachain/rlp"
@@ -629,7 +630,7 @@ func (s *StateDB) Commit(deleteEmptyObjects bool) (root common.Hash, err error) 
 	defer s.clearJournalAndRefund()
 
 	// Commit objects to the trie.
-	for addr, stateObject := range s.stateObjects {
+	commitObject := func(addr common.Address, stateObject *stateObject) error {
 		_, isDirty := s.stateObjectsDirty[addr]
 		switch {
 		case stateObject.suicided || (isDirty && deleteEmptyObjects && stateObject.empty()):
@@ -644,7 +645,7 @@ func (s *StateDB) Commit(deleteEmptyObjects bool) (root common.Hash, err error) 
 			}
 			// Write any storage changes in the state object to its storage trie.
 			if err := stateObject.CommitTrie(s.db); err != nil {
-				return common.Hash{}, err
+				return err
 			}
 			// Update the object in the main account trie.
 			s.updateStateObject(stateObject)
@@ -654,6 +655,20 @@ func (s *StateDB) Commit(deleteEmptyObjects bool) (root common.Hash, err error) 
 			// once, or changes made to it after this commit would never be written.
 			delete(s.stateObjectsDirty, addr)
 			stateObject.onDirty = s.MarkStateObjectDirty
+		}
+		return nil
+	}
+	if keys := verifhook.OrderedKeys("state.commit.objects", s.stateObjects); keys != nil {
+		for _, addr := range keys {
+			if err := commitObject(addr, s.stateObjects[addr]); err != nil {
+				return common.Hash{}, err
+			}
+		}
+	} else {
+		for addr, stateObject := range s.stateObjects {
+			if err := commitObject(addr, stateObject); err != nil {
+				return common.Hash{}, err
+			}
 		}
 	}
 	// Write trie changes.
